@@ -385,6 +385,8 @@ def ways(b, tier='quick'):
         W = [(['stop'], []), (['start', 'stop'], []), (['start', 'stop', 'step'], [])]
     elif b == 'sorted':
         W = [(['iterable'], o) for o in _kw_orders(['key', 'reverse'])]
+    elif b == 'next':
+        W = [(['iterator'], []), (['iterator', 'default'], [])]
     elif b == 'zip':
         for n in range(4):
             W.append((['it%d' % i for i in range(n)], []))
@@ -506,6 +508,15 @@ def value_sets(b):
                 I(5), ['none'], ['float', '1.0'], ['gen', INTS], ['iter', L(INTS)], ['userit', INTS], ['getitem', INTS],
                 ['fn', 'neg'], ['obj', {'__iter__': L([])}], ['complex', 1, 1], ['bool', True]]
         S = [('obj=%s%d' % (o[0], k), {'obj': o}) for k, o in enumerate(objs)]
+    elif b == 'next':
+        its = [['iter', L(INTS)], ['iter', L([])], ['gen', INTS], ['gen', []], ['gen', INTS, 0], ['citer', STRS], ['citer', []],
+               ['citer', INTS, 0], L(INTS), I(3), ['none'], ['userit', INTS], ['getitem', INTS], ['str', 'ab'], ['range', 0, 3],
+               ['iter', ['str', 'xy']], ['iter', ['dict', [[I(1), I(2)]]]], ['obj', {'__next__': I(5)}], ['obj', {'__next__': ['raise']}]]
+        dflts = [I(0), ['none'], ['bool', False], ['str', ''], L([]), ['obj', {'__bool__': ['bool', False]}], I(7)]
+        for k, it in enumerate(its):
+            for j, d in enumerate(dflts):
+                if j < 3 or k < 8:
+                    S.append(('it%d/d%d' % (k, j), {'iterator': it, 'default': d}))
     elif b == 'map':
         combos = [('neg', [INTS], None), ('add', [INTS, [I(10), I(20)]], None), ('add3', [INTS, INTS, [I(1)]], None),
                   ('str', [STRS], None), ('tup', [INTS, STRS, FLOATS], None), ('boom', [INTS], None), ('len', [INTS], None),
